@@ -111,6 +111,10 @@ ApiRet(o, res, t) ==
        \cup V(o = "drop" => res.k # "panic", "C12_panic")
        \* ---- C09
        \cup V(o \in StatusOps /\ IsStatus(res) => cst # "running", "C09_not_early")
+       \* C11 says the same of its two calls: an exit status is reported for a child that has exited -- for one that is
+       \* alive (running or stopped) the answer is "still running", no sooner than the duration asked for
+       \cup V(o \in {"poll", "wait_timeout"} /\ IsStatus(res) => cst # "running", "C11_status_only_of_an_exited_child")
+       \cup V(o \in {"poll", "wait_timeout"} => res.k # "other", "C11_status_only_of_an_exited_child")
        \cup V(o \in StatusOps /\ res.k \in {"exited", "signaled"} => st = truth /\ cst = "reaped_us", "C09_truth")
        \cup V(o \in StatusOps /\ res.k = "undetermined" => cst \in {"reaped_ext", "alien"}, "C09_truth")
        \cup V(o \in StatusOps => res.k # "other", "C09_truth")
